@@ -67,6 +67,12 @@ def all_ops_from(t, path, pre=()):
         k = len(t.elem[path].children)
         for i in range(k + 1):
             ops.append("ch:%d:%d" % (reg, i))
+        # a partly consumed child iterator, finished by last / count / len+size_hint / fold
+        for j in range(min(k, 3) + 1):
+            script = ".".join(["0"] * j)
+            for it in ("itn", "its"):
+                for term in "lczf":
+                    ops.append("%s:%d:%s:%s" % (it, reg, script, term))
     return ops
 
 
@@ -94,7 +100,8 @@ def random_program(rng, t, n, queries=True):
         elif r < 68:
             ops.append("%s:%d:%d" % (rng.choice(["ch", "cht"]), reg, rng.below(5)))
         elif r < 72:
-            ops.append("%s:%d:%s" % (rng.choice(["itn", "its"]), reg, ".".join(str(rng.below(3)) for _ in range(1 + rng.below(4)))))
+            ops.append("%s:%d:%s%s" % (rng.choice(["itn", "its"]), reg, ".".join(str(rng.below(3)) for _ in range(1 + rng.below(4))),
+                                       rng.choice(["", ":l", ":c", ":z", ":f"])))
         elif r < 80:
             ops.append("%s:%d:%d" % (rng.choice(["nca", "ncta", "pcb", "pctb"]), reg, rng.below(len(ops) + 1)))
         elif r < 88 and queries:
@@ -106,4 +113,23 @@ def random_program(rng, t, n, queries=True):
             ops.append("cov:0:%d:%d" % (a, a + rng.below(total - a + 1)))
         else:
             ops.append("%s:%d" % (rng.choice(["anc", "sib+", "sib-", "sibt+", "sibt-", "chs", "chts", "desc", "desct", "pre", "pret", "sz", "szt"]), reg))
+    return ops
+
+
+def identity_program(t):
+    """every position reached twice, by forward iteration and from the back: the registers then hold two handles per
+    position (C05: equal exactly when same position)"""
+    ops, reg_of = [], {(): 0}
+    for path in t.order:
+        if not path:
+            continue
+        ops.append("cht:%d:%d" % (reg_of[path[:-1]], path[-1]))
+        reg_of[path] = len(ops)
+    for path in t.order:
+        if t.is_node(path) and t.elem[path].children:
+            ops.append("lct:%d" % reg_of[path])
+            r = len(ops)
+            for _ in range(len(t.elem[path].children) - 1):
+                ops.append("pst:%d" % r)
+                r = len(ops)
     return ops
